@@ -197,6 +197,11 @@ func ruleVersNormInner(p *Prog, r *Report) {
 					continue
 				}
 				c, ok := use.(*ssa.Call)
+				if ok && c.Call.StaticCallee() != nil && stripsWhitespaceHelper(p, c.Call.StaticCallee()) && len(c.Call.Args) == 1 && c.Call.Args[0] == ssa.Value(ld) {
+					// the removal is done by a helper whose every result is strings.Map(drop IsSpace, parameter)
+					cleaned = append(cleaned, c)
+					continue
+				}
 				if !ok || c.Call.StaticCallee() == nil || extName(c.Call.StaticCallee()) != "strings.Map" || c.Call.Args[1] != ssa.Value(ld) {
 					bad = "a raw constraint is used before whitespace removal at " + p.Pos(use.Pos())
 					continue
@@ -342,6 +347,27 @@ func ruleVersNormInner(p *Prog, r *Report) {
 		r.Bad("R-VERS-NORM-SORT", "vers.normalizeConstraints: comparator", p.FnPos(cf), why)
 	}
 	r.Floor("R-VERS-NORM-SORT", 3)
+}
+
+// stripsWhitespaceHelper: a repo function string -> string every result of which is strings.Map(f, param)
+// with f dropping exactly the characters unicode.IsSpace reports
+func stripsWhitespaceHelper(p *Prog, g *ssa.Function) bool {
+	if g == nil || !p.IsRepoFn(g) || g.Blocks == nil || len(g.Params) != 1 || !isStringType(g.Params[0].Type()) || g.Signature.Results().Len() != 1 {
+		return false
+	}
+	n := 0
+	for _, b := range g.Blocks {
+		ret, ok := b.Instrs[len(b.Instrs)-1].(*ssa.Return)
+		if !ok {
+			continue
+		}
+		c, ok := ret.Results[0].(*ssa.Call)
+		if !ok || c.Call.StaticCallee() == nil || extName(c.Call.StaticCallee()) != "strings.Map" || c.Call.Args[1] != ssa.Value(g.Params[0]) || !dropsWhitespace(c.Call.Args[0]) {
+			return false
+		}
+		n++
+	}
+	return n > 0
 }
 
 // fieldOfParam: v is a field load from the (spilled) struct parameter par
